@@ -7,10 +7,10 @@ import (
 	"math"
 	"sort"
 	"strings"
+	"verif/h/own"
 
 	"github.com/biogo/biogo/alphabet"
 	"github.com/biogo/biogo/index/kmerindex"
-	"github.com/biogo/biogo/seq/linear"
 	"verif/h/enum"
 	"verif/h/seqgen"
 )
@@ -96,7 +96,7 @@ func checkIndex(c *enum.Ctx, k kase) {
 	if k.RNA {
 		al = alphabet.RNA
 	}
-	s := linear.NewSeq("s", alphabet.BytesToLetters([]byte(k.Seq)), al)
+	s := own.NewSeq("s", alphabet.BytesToLetters([]byte(k.Seq)), al)
 	ki, err := kmerindex.New(k.K, s)
 	if err != nil {
 		fail("New", "New(%d, %q) = %v", k.K, k.Seq, err)
@@ -200,7 +200,7 @@ func checkIndex(c *enum.Ctx, k kase) {
 		if k.RNA {
 			other = strings.NewReplacer("t", "u", "T", "U").Replace(other)
 		}
-		o := linear.NewSeq("o", alphabet.BytesToLetters([]byte(other)), al)
+		o := own.NewSeq("o", alphabet.BytesToLetters([]byte(other)), al)
 		ow := windows(other, k.K, k.RNA)
 		var got, want [][2]int
 		err := ki.ForEachKmerOf(o, 0, len(other), func(_ *kmerindex.Index, pos, kmer int) { got = append(got, [2]int{pos, kmer}) })
